@@ -1584,7 +1584,7 @@ fn read_subframes<R: BitRead>(
 
                     left.iter().zip(side_i64).zip(side.iter_mut()).for_each(
                         |((left, side_i64), side)| {
-                            *side = (*left as i64 - side_i64) as i32;
+                            *side = (*left as i64).wrapping_sub(side_i64) as i32;
                         },
                     );
                 }
@@ -1621,7 +1621,7 @@ fn read_subframes<R: BitRead>(
 
                     side.iter_mut().zip(side_i64).zip(right.iter()).for_each(
                         |((side, side_64), right)| {
-                            *side = (side_64 + *right as i64) as i32;
+                            *side = side_64.wrapping_add(*right as i64) as i32;
                         },
                     );
                 }
@@ -1660,9 +1660,9 @@ fn read_subframes<R: BitRead>(
 
                     mid.iter_mut().zip(side.iter_mut()).zip(side_i64).for_each(
                         |((mid, side), side_i64)| {
-                            let sum = *mid as i64 * 2 + (side_i64.abs() % 2);
-                            *mid = ((sum + side_i64) >> 1) as i32;
-                            *side = ((sum - side_i64) >> 1) as i32;
+                            let sum = *mid as i64 * 2 + (side_i64 & 1);
+                            *mid = (sum.wrapping_add(side_i64) >> 1) as i32;
+                            *side = (sum.wrapping_sub(side_i64) >> 1) as i32;
                         },
                     );
                 }
@@ -1789,8 +1789,7 @@ fn predict<I: SignedInteger>(coefficients: &[i64], qlp_shift: u32, channel: &mut
                 .iter()
                 .rev()
                 .zip(coefficients)
-                .map(|(x, y)| (*x).into() * y)
-                .sum::<i64>()
+                .fold(0i64, |sum, (x, y)| sum.wrapping_add((*x).into().wrapping_mul(*y)))
                 >> qlp_shift,
         ));
     }
